@@ -189,6 +189,10 @@ class Server(object):
                         self.clients.discard(sock)
                         self.clients.add(sock2)
                         sock = sock2
+                        if self._closed:
+                            # close() ran during the authentication, when only the dead original was registered
+                            sock2.close()
+                            return
             else:
                 credentials = None
                 sock2 = sock
